@@ -45,13 +45,13 @@ def M(name, find, replace, expect, file="specials.c", **kw):
 
 
 def unit(uid, entry, fn, clause, bound, mutants, assumes, tier="quick", defines=None, replace=None, compile_keep=None, wrap_keep=None,
-         unwind=18, timeout=300, extra=None, functions=None):
+         unwind=18, timeout=300, extra=None, functions=None, grow=None):
     u = {"id": uid, "props": ["C02"], "tier": tier, "class": "bounded", "bound": bound, "clause": clause,
          "src": ["specials.c", "emit.c"], "link": ["compile.c", "wrap.c"],
          "link_keep": {"compile.c": compile_keep or COMPILE_KEEP, "wrap.c": wrap_keep or WRAP_KEEP},
          "harness": ["comp_specials.c"], "entry": entry, "mode": "plain", "nanbox": False,
          "functions": functions or [fn, "janetc_scope", "janetc_popscope", "janetc_emit", "janetc_copy"],
-         "replace_calls": BASE_REPLACE + (replace or []),
+         "replace_calls": [r if not (grow and r.startswith("janet_v_grow:")) else "janet_v_grow:" + grow for r in BASE_REPLACE] + (replace or []),
          "checks": CHECKS, "unwind": unwind, "unwinding_assertions": True, "timeout": timeout,
          "assumes": assumes, "mutants": mutants, "defines": defines or []}
     if extra:
@@ -78,20 +78,134 @@ IF_MUT = [
       "if (ifnjmp == JOP_JUMP_IF_NOT && janet_checktype(cond.constant, JANET_NIL)) swap_condition = 1;", "selected branch|other branch|result slot"),
     M("condition-compiled-in-tail", "    condopts = janetc_fopts_default(c);\n    bodyopts = opts;", "    condopts = opts;\n    bodyopts = opts;", "condition is compiled for its value"),
 ]
+IF_A = [A_VALUE, A_RA, A_GROW, A_THROW, A_INTERP, A_ERR, "the condition is not of the form (= nil x) / (not= nil x) (see comp.if.nilcheck)"]
+IF_SHAPES = "(if c a), (if c a nil), (if c a b); "
+
+
+def bound_ctx(ctx):
+    return ("each sub-form emits 0..2 instructions and yields a constant (nil, false, true, 0, 7) or a local register; 2 instructions before the form; "
+            "context: " + ctx + "; registers < 32; instruction vectors preallocated with 32 entries (no growth); execution of the emitted code bounded "
+            "by 12 steps (asserted sufficient)")
+
+
 units.append(unit(
-    "comp.if", "h_if", "janetc_if", IF_CLAUSE % "",
-    "(if c a), (if c a nil), (if c a b); " + BOUND_CTX, IF_MUT,
-    [A_VALUE, A_RA, A_GROW, A_THROW, A_INTERP, A_ERR, "the condition is not of the form (= nil x) / (not= nil x) (see comp.if.nilcheck)"],
-    defines=["-DSP_IF_SHAPE=0"]))
+    "comp.if.used", "h_if", "janetc_if", IF_CLAUSE % "", IF_SHAPES + bound_ctx("value used, no hint slot, non-constant condition"),
+    [IF_MUT[0], IF_MUT[1], IF_MUT[2]], IF_A, defines=["-DSP_IF_SHAPE=0", "-DSP_CTX=0", "-DSP_CONDCONST=0", "-DSP_HINT=0"]))
+units.append(unit(
+    "comp.if.used.hint", "h_if", "janetc_if", IF_CLAUSE % "", IF_SHAPES + bound_ctx("value used, delivered into a hint slot (any register, possibly the register of a sub-form's value), non-constant condition"),
+    [IF_MUT[0], M("hint-ignored", "    target = (drop || tail)\n             ? janetc_cslot(janet_wrap_nil())\n             : janetc_gettarget(opts);",
+                  "    opts.flags &= ~JANET_FOPTS_HINT;\n    target = (drop || tail)\n             ? janetc_cslot(janet_wrap_nil())\n             : janetc_gettarget(opts);", "usable hint")],
+    IF_A, tier="thorough", defines=["-DSP_IF_SHAPE=0", "-DSP_CTX=0", "-DSP_CONDCONST=0", "-DSP_HINT=1"]))
+units.append(unit(
+    "comp.if.used.const", "h_if", "janetc_if", IF_CLAUSE % "", IF_SHAPES + bound_ctx("value used (with or without hint slot), constant condition (nil, false, true, 0, 7)"),
+    [IF_MUT[3], M("constant-branch-value-not-delivered", "        right = janetc_value(bodyopts, truebody);\n        if (!drop && !tail) janetc_copy(c, target, right);",
+                  "        right = janetc_value(bodyopts, truebody);", "result slot"),
+     M("dead-branch-compiled-in", "        if (!janet_checktype(falsebody, JANET_NIL)) {\n            janetc_throwaway(bodyopts, falsebody);", "        if (!janet_checktype(falsebody, JANET_NIL)) {\n            janetc_value(bodyopts, falsebody);", "other branch|dead branch|result slot")],
+    IF_A, defines=["-DSP_IF_SHAPE=0", "-DSP_CTX=0", "-DSP_CONDCONST=1"]))
+units.append(unit(
+    "comp.if.drop", "h_if", "janetc_if", IF_CLAUSE % "", IF_SHAPES + bound_ctx("value dropped; constant or non-constant condition"),
+    [IF_MUT[2], M("no-jump-over-else-when-dropped", "    if (!tail && !(drop && janet_checktype(falsebody, JANET_NIL))) janetc_emit(c, JOP_JUMP);", "    if (!tail && !drop) janetc_emit(c, JOP_JUMP);", "other branch|stays inside|continues")],
+    IF_A, defines=["-DSP_IF_SHAPE=0", "-DSP_CTX=1"]))
+units.append(unit(
+    "comp.if.tail", "h_if", "janetc_if", IF_CLAUSE % "", IF_SHAPES + bound_ctx("tail position; constant or non-constant condition"),
+    [IF_MUT[4], M("branches-lose-tail-position", "    bodyopts = opts;\n    bodyopts.flags &= ~JANET_FOPTS_ACCEPT_SPLICE;", "    bodyopts = opts;\n    bodyopts.flags &= ~(JANET_FOPTS_ACCEPT_SPLICE | JANET_FOPTS_TAIL);", "tail position|inherit"),
+     IF_MUT[0]],
+    IF_A, defines=["-DSP_IF_SHAPE=0", "-DSP_CTX=2"]))
 units.append(unit(
     "comp.if.nilcheck", "h_if", "janetc_if",
     IF_CLAUSE % "; for a condition (= nil x) or (= x nil) the true branch iff x is nil, for (not= nil x) iff x is not nil (x evaluated once, the comparison not called); any other function (<) is an ordinary condition",
-    "condition (f nil x) or (f x nil) with f a function tagged =, not= or <; " + BOUND_CTX,
+    "condition (f nil x) or (f x nil) with f a function tagged =, not= or <; every sub-form emits exactly 1 instruction (the layouts with 0..2 are covered by comp.if.used/.drop/.tail); " + bound_ctx("value used (with or without hint), dropped or tail"),
     [M("eq-shortcut-inverted", "        ifnjmp = JOP_JUMP_IF_NOT_NIL;\n    } else if", "        ifnjmp = JOP_JUMP_IF_NIL;\n    } else if", "selected branch|other branch|result slot"),
      M("neq-constant-not-swapped", "        if (ifnjmp == JOP_JUMP_IF_NIL && janet_checktype(cond.constant, JANET_NIL)) swap_condition = 1;\n", "", "selected branch|other branch|result slot"),
      M("shortcut-ignores-function", "    if (tag != fun_tag) return 0;\n", "", "condition is compiled first|selected branch|other branch|result slot")],
     [A_VALUE, A_RA, A_GROW, A_THROW, A_INTERP, A_ERR],
-    defines=["-DSP_IF_SHAPE=1"]))
+    defines=["-DSP_IF_SHAPE=1", "-DSP_KFIX=1"]))
+
+# ------------------------------------------------------------------ do / upscope
+DO_CLAUSE = ("%s: the sub-forms are compiled and evaluated once each in order; every form but the last for effect only (value dropped and its register released, "
+             "never in tail position); the last form inherits the context (tail, hint, drop) and its value is the value of the form (nil and no code when empty); %s")
+DO_BOUND = "0..3 sub-forms whose results are constants, temporaries or named locals; " + bound_ctx("value used (with or without hint), dropped or tail position")
+DO_A = [A_VALUE, A_RA, A_GROW, A_INTERP, A_ERR]
+units.append(unit(
+    "comp.do", "h_do", "janetc_do",
+    DO_CLAUSE % ("do", "the forms are compiled in a lexical scope of the do which is popped afterwards, the result register staying allocated in the enclosing scope"),
+    DO_BOUND,
+    [M("last-form-dropped-too", "        if (i != argn - 1) {\n            subopts.flags = JANET_FOPTS_DROP;\n        } else {\n            subopts = opts;\n            subopts.flags &= ~JANET_FOPTS_ACCEPT_SPLICE;\n        }\n        ret = janetc_value(subopts, argv[i]);\n        if (i != argn - 1) {\n            janetc_freeslot(c, ret);\n        }\n    }\n    janetc_popscope_keepslot",
+       "        if (i != argn) {\n            subopts.flags = JANET_FOPTS_DROP;\n        } else {\n            subopts = opts;\n            subopts.flags &= ~JANET_FOPTS_ACCEPT_SPLICE;\n        }\n        ret = janetc_value(subopts, argv[i]);\n        if (i != argn - 1) {\n            janetc_freeslot(c, ret);\n        }\n    }\n    janetc_popscope_keepslot", "last form inherits|returns its value"),
+     M("result-register-not-kept", "    janetc_popscope_keepslot(c, ret);\n    return ret;", "    janetc_popscope(c);\n    return ret;", "stays allocated"),
+     M("dropped-register-leaked", "            janetc_freeslot(c, ret);\n        }\n    }\n    janetc_popscope_keepslot", "        }\n    }\n    janetc_popscope_keepslot", "is released"),
+     M("no-scope", "    janetc_scope(&tempscope, c, 0, \"do\");\n", "", "plain lexical scope|scope the form opened")],
+    DO_A))
+units.append(unit(
+    "comp.upscope", "h_do", "janetc_upscope",
+    DO_CLAUSE % ("upscope", "no scope is opened: the forms are compiled in the enclosing scope"),
+    DO_BOUND,
+    [M("upscope-all-dropped", "    for (i = 0; i < argn; i++) {\n        if (i != argn - 1) {\n            subopts.flags = JANET_FOPTS_DROP;\n        } else {\n            subopts = opts;\n            subopts.flags &= ~JANET_FOPTS_ACCEPT_SPLICE;\n        }\n        ret = janetc_value(subopts, argv[i]);\n        if (i != argn - 1) {\n            janetc_freeslot(c, ret);\n        }\n    }\n    return ret;",
+       "    for (i = 0; i < argn; i++) {\n        if (i != argn - 1) {\n            subopts.flags = JANET_FOPTS_DROP;\n        } else {\n            subopts = opts;\n            subopts.flags &= ~JANET_FOPTS_ACCEPT_SPLICE;\n        }\n        ret = janetc_value(subopts, argv[i]);\n        if (i != argn - 1) {\n            janetc_freeslot(c, ret);\n        }\n    }\n    return janetc_cslot(janet_wrap_nil());", "value of the do is the value of its last form"),
+     M("upscope-order-reversed", "        ret = janetc_value(subopts, argv[i]);\n        if (i != argn - 1) {\n            janetc_freeslot(c, ret);\n        }\n    }\n    return ret;",
+       "        ret = janetc_value(subopts, argv[argn - 1 - i]);\n        if (i != argn - 1) {\n            janetc_freeslot(c, ret);\n        }\n    }\n    return ret;", "in order|last form")],
+    DO_A, defines=["-DSP_UPSCOPE=1"]))
+
+# ------------------------------------------------------------------ break
+units.append(unit(
+    "comp.break", "h_break", "janetc_break",
+    "break: leaves the NEAREST enclosing loop or function: inside a loop the value form is evaluated, dropped and control goes to the loop exit (placeholder patched by "
+    "while; the loop yields nil), inside a loop compiled as function likewise with a return of nil, inside a function body it returns the value (nil without); "
+    "outside of both, or with two arguments, a compile error and no code; the form itself yields nil; scopes untouched",
+    "chains of 1..3 scopes with arbitrary FUNCTION / WHILE / CLOSURE / ENV / TOP flags; 0..2 arguments; " + bound_ctx("any"),
+    [M("loop-function-returns-value", "        if (!(scope->flags & JANET_SCOPE_WHILE) && argn) {", "        if (argn) {", "leaves the loop function with nil|value of a loop break"),
+     M("break-crosses-function", "        if (scope->flags & (JANET_SCOPE_FUNCTION | JANET_SCOPE_WHILE))\n            break;\n        scope = scope->parent;\n    }\n    if (NULL == scope) {",
+       "        if (scope->flags & JANET_SCOPE_WHILE)\n            break;\n        scope = scope->parent;\n    }\n    if (NULL == scope) {", "function body|compile error|well-placed"),
+     M("placeholder-untagged", "        janetc_emit(c, 0x80 | JOP_JUMP);", "        janetc_emit(c, JOP_JUMP);", "placeholder|stays inside"),
+     M("value-not-evaluated-in-loop", "        if (argn) {\n            subopts.flags |= JANET_FOPTS_DROP;\n            janetc_value(subopts, argv[0]);\n        }\n        /* Tag", "        /* Tag", "compiled once|evaluated before")],
+    [A_VALUE, A_RA, A_GROW, A_INTERP, A_ERR]))
+
+# ------------------------------------------------------------------ def / var / set
+BIND_KEEP = COMPILE_KEEP + ["janetc_farslot", "janetc_nameslot"]
+A_GROW2 = A_GROW + "; the one-element vectors of a binding (SlotHeadPair, SymPair) are preallocated too (sp_grow_stub)"
+BIND_BOUND = ("(%s name value) with a symbol as name, in a local (non top-level) scope; the value is a constant, a temporary, a named definition or a named variable; " +
+              bound_ctx("value used (with or without hint), dropped or tail position"))
+BIND_CLAUSE = ("%s: the value form is compiled and evaluated exactly once (never dropped, never as tail call), the name is added to the current scope as %s binding whose "
+               "slot holds the value after execution; %s; the form yields the bound value; no scope is opened")
+units.append(unit(
+    "comp.def.local", "h_def", "janetc_def",
+    BIND_CLAUSE % ("def", "an immutable", "the binding may share the value's register only when that is not a variable (a later set of the variable must not change the definition)"),
+    BIND_BOUND % "def",
+    [M("def-aliases-variable", "    int canAlias = !(flags & JANET_SLOT_MUTABLE) &&\n                   !(ret.flags & JANET_SLOT_MUTABLE) &&", "    int canAlias = !(flags & JANET_SLOT_MUTABLE) &&", "never aliases a variable"),
+     M("def-value-dropped", "    subopts.flags = opts.flags & ~(JANET_FOPTS_TAIL | JANET_FOPTS_DROP);", "    subopts.flags = opts.flags & ~JANET_FOPTS_DROP;", "not compiled as tail call"),
+     M("def-copy-skipped", "        JanetSlot localslot = janetc_farslot(c);\n        janetc_copy(c, localslot, ret);", "        JanetSlot localslot = janetc_farslot(c);", "bound to the value")],
+    [A_VALUE, A_RA, A_GROW2, A_INTERP, A_ERR, "janet_table (attribute table) returns an arbitrary pointer; it is not used for a local binding without metadata"],
+    compile_keep=BIND_KEEP, grow="sp_grow_stub", functions=["janetc_def", "dohead_destructure", "destructure", "defleaf", "namelocal", "janetc_nameslot", "janetc_copy"]))
+units.append(unit(
+    "comp.var.local", "h_def", "janetc_var",
+    BIND_CLAUSE % ("var", "a mutable", "a new variable never shares its register with another named binding nor with the variable that receives the form's value"),
+    BIND_BOUND % "var",
+    [M("var-not-mutable", "        return namelocal(c, sym, JANET_SLOT_MUTABLE, s);", "        return namelocal(c, sym, 0, s);", "binding is mutable|never shares"),
+     M("var-aliases-named", "    } else if (!isUnnamedRegister) {\n        /* Slot is not able to be named */", "    } else if (!isUnnamedRegister && !(ret.flags & JANET_SLOT_NAMED)) {\n        /* Slot is not able to be named */", "never shares|does not live in the register")],
+    [A_VALUE, A_RA, A_GROW2, A_INTERP, A_ERR, "janet_table (attribute table) returns an arbitrary pointer; it is not used for a local binding without metadata"],
+    compile_keep=BIND_KEEP, grow="sp_grow_stub", defines=["-DSP_VAR=1"], functions=["janetc_var", "dohead_destructure", "destructure", "varleaf", "namelocal", "janetc_nameslot", "janetc_copy"]))
+SET_KEEP = COMPILE_KEEP + ["janetc_resolve", "lookup_missing"]
+units.append(unit(
+    "comp.set.name", "h_set", "janetc_varset",
+    "set: assigning to a name evaluates the value form once and moves the value into the variable's register (local variable) or stores it into the ref cell bound to the name "
+    "(top-level variable); the form yields the assigned value; assigning to a definition is a compile error and emits nothing",
+    "(set a v) where a resolves in the current scope to a local variable, a local definition or a top-level variable (ref cell); " + bound_ctx("value used (with or without hint), dropped or tail position"),
+    [M("set-on-def-allowed", "        if (!(dest.flags & JANET_SLOT_MUTABLE)) {", "        if (0) {", "definition is a compile error"),
+     M("set-without-store", "        subopts.flags = JANET_FOPTS_HINT;\n        subopts.hint = dest;", "        subopts.hint = dest;", "holds the new value|stored into the ref cell"),
+     M("set-value-tail", "        subopts.flags = JANET_FOPTS_HINT;\n        subopts.hint = dest;", "        subopts.flags = JANET_FOPTS_HINT | (opts.flags & JANET_FOPTS_TAIL);\n        subopts.hint = dest;", "not as tail call")],
+    [A_VALUE, A_RA, A_GROW, A_INTERP, A_ERR, "janetc_const (constant table of the function) returns index 0 and records the constant: the only table constant is the ref cell array; LOAD_CONSTANT 0 yields it",
+     "the name is found in the current scope (real janetc_resolve, first loop); global lookup and upvalue capture are not exercised"],
+    compile_keep=SET_KEEP, replace=["janetc_lintf:sp_lintf_stub"], functions=["janetc_varset", "janetc_resolve", "janetc_copy"]))
+units.append(unit(
+    "comp.set.field", "h_set", "janetc_varset",
+    "set: (set (ds key) v) evaluates ds, then key, then v, once each, none dropped or in tail position, then puts v under key into ds (one PUT after all three evaluations) and yields v; "
+    "an l-value tuple of another length is a compile error and emits nothing",
+    "(set (ds key) v) and (set (ds key extra) v); " + bound_ctx("value used (with or without hint), dropped or tail position"),
+    [M("put-operands-swapped", "        janetc_emit_sss(opts.compiler, JOP_PUT, ds, key, rvalue, 0);", "        janetc_emit_sss(opts.compiler, JOP_PUT, ds, rvalue, key, 0);", "exactly one put"),
+     M("key-before-ds", "        JanetSlot ds = janetc_value(subopts, tup[0]);\n        JanetSlot key = janetc_value(subopts, tup[1]);", "        JanetSlot key = janetc_value(subopts, tup[1]);\n        JanetSlot ds = janetc_value(subopts, tup[0]);", "in this order|then key"),
+     M("value-may-be-tail", "        opts.flags &= ~(JANET_FOPTS_TAIL | JANET_FOPTS_DROP);", "        opts.flags &= ~JANET_FOPTS_DROP;", "none compiled as tail call|control continues")],
+    [A_VALUE, A_RA, A_GROW, A_INTERP, A_ERR, "PUT a b c stores reg c under key reg b into reg a (reference interpreter)"],
+    compile_keep=SET_KEEP, replace=["janetc_lintf:sp_lintf_stub"], defines=["-DSP_SET_SHAPE=1"], functions=["janetc_varset", "janetc_emit_sss"]))
 
 json.dump({"units": units}, open(os.path.join(VERIF, "units", "C02_specials.json"), "w"), indent=1)
 print("wrote %d units" % len(units))
